@@ -262,3 +262,45 @@ def sim_stream(name, profile, monitor, quick_n=250, thorough_n=8000, **kw):
                   monitor=mon, driver_input=driver_input, compare=compare,
                   nontrivial=lambda c, o: any(" cb(" in (" " + l) for l in o),
                   opkind=lambda l: l.split()[0] + (":" + l.split("kind=")[1].split()[0] if "kind=" in l else ""))
+
+
+# ---------------------------------------------------------------------------------------------- C12 walk scenarios
+WALK_NAMES = ["host", "www.example", "a.b.c", "a.b.c.d", "host.", "www.example.", "x"]
+WALK_DOMAINS = ["example.com", "sub.example.org", "test", "."]
+
+
+def gen_walk_case(rng):
+    """One search (or single-family getaddrinfo) at a time against one server with tries=1, each candidate
+    answered with a scripted outcome."""
+    doms = rng.sample(WALK_DOMAINS, rng.randint(0, 3))
+    ndots = rng.choice([0, 1, 1, 2, 3, 4])
+    flags = (32 if rng.random() < 0.15 else 0)
+    ops = ["chan servers=10.0.0.1 flags=%d tries=1 timeout=1000 ndots=%d%s" % (
+        flags, ndots, (" domains=" + ",".join(doms)) if doms else "")]
+    for tok in range(1, rng.randint(2, 4)):
+        name = rng.choice(WALK_NAMES)
+        kind = rng.choice(["search", "search", "gai"])
+        if kind == "gai":
+            ops.append("req tok=%d kind=gai name=%s fam=%d" % (tok, name, rng.choice([2, 10])))
+        else:
+            ops.append("req tok=%d kind=search name=%s type=%d" % (tok, name, rng.choice([1, 16])))
+        for _ in range(len(doms) + 2):
+            o = wchoice(rng, [("nxdomain", 8), ("nodata", 6), ("noerror", 3), ("servfail", 4), ("refused", 2), ("timeout", 1), ("formerr", 1)])
+            if o == "timeout":
+                ops += ["adv 10000", "tick"]
+            else:
+                ops += ["reply tx=-1 kind=%s%s" % (o, " an=1 ttl=30" if o == "noerror" else ""), "proc r=-1"]
+    ops.append("destroy")
+    return ops
+
+
+def walk_stream(quick_n=300, thorough_n=8000):
+    import simprops
+
+    def gen(rng, tier):
+        return [gen_walk_case(rng) for _ in range(quick_n if tier == "quick" else thorough_n)]
+    return Stream("walk", "h_sim", "driver_sim", gen,
+                  monitor=lambda c, o: mon_common(c, o) + simprops.mon_c12(c, o) + simprops.mon_c01(c, o),
+                  driver_input=driver_input, compare=compare,
+                  nontrivial=lambda c, o: any(" cb(" in (" " + l) for l in o),
+                  opkind=lambda l: l.split()[0] + (":" + l.split("kind=")[1].split()[0] if "kind=" in l else ""))
